@@ -1,6 +1,8 @@
 package soyhtml
 
 import (
+	"sync"
+
 	"github.com/robfig/soy/data"
 )
 
@@ -30,12 +32,21 @@ func c08Data(d int) data.Map {
 
 func verifBang(v data.Value, _ []data.Value) data.Value { return data.String(v.String() + "!") }
 
-// H_pure: two renders of template set t with the same (symbolic) data under frozen memory:
-// every cell reachable from the compiled registry, the data map, the injected data and all
+const c08Failing = "{namespace f}\n/** @param? u */\n{template .block}\nA{let $z}before{$u.nope}{/let}{$z}\n{/template}\n" +
+	"/** @param? u */\n{template .param}\nB{call .w}{param z}x{$u.nope}{/param}{/call}\n{/template}\n/** @param z */\n{template .w}\n{$z}\n{/template}\n" +
+	"/** @param? u */\n{template .log}\nC{log}l{$u.nope}{/log}\n{/template}\n/** @param? u */\n{template .plain}\nD{$u.nope}\n{/template}\n"
+
+var c08Prior = []string{"", "f.block", "f.param", "f.log", "f.plain"}
+
+// H_pure: renders of template set t with the same (symbolic) data under frozen memory: every
+// cell reachable from the compiled registry, the data map, the injected data and all
 // package-level variables of soy is read-only during the renders. oblig installs an obligatory
-// print directive; first=1 renders a different (failing) template set entry first.
-func H_pure(t, d int, oblig bool) {
-	tofu := verifMustCompile(c08Templates[t]...)
+// print directive. prior selects what happens before: nothing, a render that fails inside a let
+// content block / a param content block / a log block / a print (1..4), or a render of the same
+// template into a writer that starts failing at a symbolically chosen write (5). The renders after
+// it must write exactly what the very first render wrote.
+func H_pure(t, d int, oblig bool, prior int) {
+	tofu := verifMustCompile(append(append([]string{}, c08Templates[t]...), c08Failing)...)
 	if oblig {
 		PrintDirectives["verifBang"] = PrintDirective{verifBang, []int{0}, false}
 		ObligatoryPrintDirectiveNames = []string{"verifBang"}
@@ -45,14 +56,44 @@ func H_pure(t, d int, oblig bool) {
 	verifFreeze("compiled registry", tofu)
 	verifFreeze("caller data", m, ij)
 	verifFreezeGlobals()
+	out0, err0 := verifRenderIJ(tofu, "a.t", m, ij)
+	switch {
+	case prior >= 1 && prior <= 4:
+		_, perr := verifRenderIJ(tofu, c08Prior[prior], m, ij)
+		verifAssert(perr != nil, "harness: the prior render was meant to fail")
+	case prior == 5:
+		w := &faultWriter{}
+		tofu.NewRenderer("a.t").Inject(ij).Execute(w, m)
+	}
 	out1, err1 := verifRenderIJ(tofu, "a.t", m, ij)
 	out2, err2 := verifRenderIJ(tofu, "a.t", m, ij)
 	verifUnfreeze()
 	after := verifDeepDigest(tofu, m, ij, PrintDirectives, ObligatoryPrintDirectiveNames, Funcs)
-	verifObserve("out1", out1)
-	verifAssert((err1 == nil) == (err2 == nil), "the second render of the same template with the same data differs in outcome")
-	verifAssert(out1 == out2, "the second render of the same template with the same data writes different bytes")
+	verifObserve("out", out0)
+	verifAssert((err0 == nil) == (err1 == nil) && (err1 == nil) == (err2 == nil), "a later render of the same template with the same data differs in outcome")
+	verifAssert(out0 == out1 && out1 == out2, "a later render of the same template with the same data writes different bytes")
 	verifAssert(before == after, "native: the compiled bundle, the data or a registry changed during rendering")
+	if !verifSymbolic() {
+		// native only (confirms findings about shared state): overlapping renders write what one writes alone
+		var wg sync.WaitGroup
+		outs := make([]string, 16)
+		for g := range outs {
+			wg.Add(1)
+			go func(g int) {
+				defer wg.Done()
+				for r := 0; r < 20; r++ {
+					o, _ := verifRenderIJ(tofu, "a.t", m, ij)
+					if o != out0 {
+						outs[g] = o
+					}
+				}
+			}(g)
+		}
+		wg.Wait()
+		for g := range outs {
+			verifAssert(outs[g] == "", "native: a concurrent render wrote bytes that differ from a render run alone")
+		}
+	}
 }
 
 func verifRenderIJ(t *Tofu, name string, m, ij data.Map) (string, error) {
